@@ -446,6 +446,9 @@ cdef class StratifiedSFCNNPS(NNPS):
         cdef uint64_t key_stripped, strip_mask, current_max_key
         cdef int mask_length = 0
 
+        cdef int d
+        cdef NNPSParticleArrayWrapper other
+
         strip_mask = (1 << self.max_num_bits) - 1
 
         for i in range(self.narrays):
@@ -584,6 +587,89 @@ cdef class StratifiedSFCNNPS(NNPS):
                         mask_length += num_boxes
 
                     current_key_to_nbr_length_level[key_bottom] = mask_length
+
+            # A destination particle of another array may lie in a cell, or
+            # be binned at a level, that holds no particle of array i: find
+            # the neighboring boxes in array i for those as well.
+            for d in range(self.narrays):
+                if d == i:
+                    continue
+                other = self.pa_wrappers[d]
+                for j in range(other.get_number_of_particles()):
+                    key = self.keys[d][j]
+                    pid = self.pids[d][j]
+
+                    find_cell_id_raw(
+                        other.x.data[pid] - xmin[0],
+                        other.y.data[pid] - xmin[1],
+                        other.z.data[pid] - xmin[2],
+                        self.radius_scale*current_cells[0],
+                        &c_x, &c_y, &c_z
+                        )
+
+                    key_bottom = get_key(c_x, c_y, c_z)
+
+                    level = key >> self.max_num_bits
+                    key_stripped = key & strip_mask
+                    current_key_to_nbr_idx_level = current_key_to_nbr_idx[level]
+                    current_key_to_nbr_length_level = current_key_to_nbr_length[level]
+
+                    if current_key_to_nbr_idx_level[key_bottom] != -1:
+                        continue
+
+                    current_key_to_nbr_idx_level[key_bottom] = n
+                    hmax_cell = self._cell_hmax(level, key_stripped)
+                    mask_length = 0
+
+                    for k in range(self.num_levels):
+                        if current_cells[k] == 0:
+                            continue
+
+                        find_cell_id_raw(
+                            other.x.data[pid] - xmin[0],
+                            other.y.data[pid] - xmin[1],
+                            other.z.data[pid] - xmin[2],
+                            self.radius_scale*current_cells[k],
+                            &c_x, &c_y, &c_z
+                            )
+
+                        H = self._get_H(hmax_cell, current_cells[k])
+
+                        num_boxes = self._neighbor_boxes_func(
+                                c_x, c_y, c_z,
+                                H, current_key_to_idx[k], current_max_key,
+                                current_cells[k], current_hmax[k],
+                                current_nbr_boxes
+                                )
+
+                        n += num_boxes
+                        mask_length += num_boxes
+
+                    current_key_to_nbr_length_level[key_bottom] = mask_length
+
+    cdef double _cell_hmax(self, int level, uint64_t key):
+        """Largest h among the particles of all arrays that are binned at
+        the given level in the cell with the given key (without level bits)
+        """
+        cdef NNPSParticleArrayWrapper pa_wrapper
+        cdef double* h_ptr
+        cdef uint64_t* keys
+        cdef int a, j, num_particles
+        cdef double hmax = 0
+        for a in range(self.narrays):
+            pa_wrapper = self.pa_wrappers[a]
+            num_particles = pa_wrapper.get_number_of_particles()
+            h_ptr = pa_wrapper.h.data
+            keys = self.keys[a]
+            j = self.get_idx(key, self.max_keys[a], self.key_to_idx[a][level])
+            if j == -1:
+                continue
+            hmax = fmax(hmax, h_ptr[self.pids[a][j]])
+            j += 1
+            while j < num_particles and keys[j] == keys[j-1]:
+                hmax = fmax(hmax, h_ptr[self.pids[a][j]])
+                j += 1
+        return hmax
 
     @cython.cdivision(True)
     cpdef _refresh(self):
